@@ -204,23 +204,39 @@ def build_harness(force: bool = False) -> Path:
         else:
             src_lines.append(ln)
     src = '\n'.join(src_lines) + '\n' + tail
-    srcfile = BUILD / f'harness-{dig}.rs'
-    srcfile.write_text(src)
-    tmpexe = BUILD / f'harness-{dig}.tmp{os.getpid()}'
-    cmd = ['rustc', '--edition', '2021', '-O', '-C', 'debuginfo=0', '--crate-name', 'vharness', '--crate-type', 'bin',
-           '-o', str(tmpexe), str(srcfile)]
-    r = subprocess.run(cmd, cwd=str(BUILD), env=RUST_ENV, capture_output=True, text=True)
-    if r.returncode != 0:
-        sys.stderr.write(r.stderr[-4000:])
-        raise RuntimeError('harness build failed')
-    os.replace(tmpexe, exe)
-    # drop stale builds
+    # build in a private directory (concurrent checks, possibly against different trees, share BUILD) and publish atomically
+    import shutil
+    import tempfile
+    import time as _time
+    work = Path(tempfile.mkdtemp(prefix=f'tmp-{dig}-', dir=str(BUILD)))
+    try:
+        srcfile = work / 'harness.rs'
+        srcfile.write_text(src)
+        tmpexe = work / 'harness'
+        cmd = ['rustc', '--edition', '2021', '-O', '-C', 'debuginfo=0', '--crate-name', 'vharness', '--crate-type', 'bin',
+               '-o', str(tmpexe), str(srcfile)]
+        r = subprocess.run(cmd, cwd=str(work), env=RUST_ENV, capture_output=True, text=True)
+        if r.returncode != 0:
+            sys.stderr.write(r.stderr[-4000:])
+            raise RuntimeError('harness build failed')
+        os.replace(tmpexe, exe)
+    finally:
+        shutil.rmtree(work, ignore_errors=True)
+    # drop builds for other versions of lib.rs, but only old ones: another check may be using a different tree right now
+    now = _time.time()
     for f in BUILD.glob('harness-*'):
         if dig not in f.name:
             try:
-                f.unlink()
+                if now - f.stat().st_mtime > 6 * 3600:
+                    f.unlink()
             except OSError:
                 pass
+    for d in BUILD.glob('tmp-*'):
+        try:
+            if now - d.stat().st_mtime > 6 * 3600:
+                shutil.rmtree(d, ignore_errors=True)
+        except OSError:
+            pass
     return exe
 
 
